@@ -3,14 +3,20 @@ CONSTANT FNS = {1, 2}
 CONSTANT ARGS = {1, 2}
 CONSTANT SEEDS = {1, 2}
 CONSTANT DRAWS = {1}
-CONSTANT MaxLen = 5
-CONSTANT Libs = {"good", "stray_global", "ignores_seed", "reseeds_global", "uses_pyrandom", "stray_pyrandom", "reseeds_inner", "fresh_entropy", "nondet"}
+CONSTANT MaxLen = 4
+CONSTANT Libs = {"good"}
 CONSTANT Canon = TRUE
 CONSTANT GenMode = "none"
 CONSTANT Cost <- CostOne
 INVARIANT TypeOK
 INVARIANT RecordingFaithful
+INVARIANT GlobalUntouchedInv
+INVARIANT PyUntouchedInv
+INVARIANT SeededFunctional
+INVARIANT IntEqualsRandomState
+INVARIANT UnseededFunctional
+INVARIANT ReseedReproducible
 INVARIANT GoodRefinesAllowed
-INVARIANT Book
-POSTCONDITION Post
+PROPERTY SeededLeavesStreams
+PROPERTY PyNeverConsumed
 CHECK_DEADLOCK FALSE
